@@ -978,7 +978,12 @@ template<typename FwdV>
 void quantiles_sketch<T, C, A>::zip_buffer_with_stride(FwdV&& buf_in, Level& buf_out, uint16_t stride) {
   // Random offset in range [0, stride)
   std::uniform_int_distribution<uint16_t> dist(0, stride - 1);
+#ifdef DATASKETCHES_VERIF
+  const uint16_t rand_offset = random_utils::verif_src()
+    ? static_cast<uint16_t>(random_utils::verif_src()->index(stride)) : dist(random_utils::rand);
+#else
   const uint16_t rand_offset = dist(random_utils::rand);
+#endif
   
   if ((buf_in.size() != stride * buf_out.capacity())
     || (buf_out.size() > 0)) {
